@@ -256,15 +256,14 @@ Proof.
     rewrite ck64_small by (unfold two64; lia). cbn [bind].
     rewrite ck64_small; [reflexivity|].
     pose proof (i32_of_range l1 l2 l3 l4 Hb1 Hb2 Hb3 Hb4) as Hlr. rewrite Hl in Hlr.
-    rewrite !blen_cons, !blen_app, !blen_cons in Hlr.
+    repeat (rewrite ?blen_cons, ?blen_app in Hlr).
     pose proof (blen_nonneg m). pose proof (blen_nonneg q). pose proof (blen_nonneg nm). pose proof (blen_nonneg s5).
     unfold two64. lia. }
   rewrite Henc. split; [|split; [eexists; reflexivity | reflexivity]].
   unfold splice_name. cbn [take_n skip_strings]. rewrite split0_app by assumption.
   cbn [app]. f_equal. f_equal. f_equal.
-  - f_equal. rewrite Hl. rewrite !blen_cons, !blen_app, !blen_cons, blen_app, !blen_cons. rewrite Hs5. lia.
-  - f_equal. f_equal. rewrite <- app_comm_cons. f_equal. f_equal.
-    unfold np. rewrite be16_i16_of by assumption. cbn [app]. rewrite <- Hs5'. reflexivity.
+  - f_equal. rewrite Hl. repeat (rewrite ?blen_cons, ?blen_app). rewrite Hs5. lia.
+  - unfold np. rewrite be16_i16_of by assumption. cbn [app]. rewrite <- Hs5'. reflexivity.
 Qed.
 
 (** * Describe / Close: same statement *)
@@ -286,7 +285,7 @@ Proof.
   - unfold encode_describe, rename_describe. cbn [d_name d_code d_target]. rewrite Hm.
     split; [|eexists; reflexivity].
     unfold splice_name. cbn [take_n skip_strings]. rewrite split0_app by assumption. cbn [app].
-    f_equal. f_equal. f_equal. f_equal. rewrite Hl. rewrite !blen_cons, blen_app, !blen_cons. unfold blen at 3. cbn [length]. lia.
+    f_equal. f_equal. f_equal. f_equal. rewrite Hl. rewrite !blen_cons, blen_app, !blen_cons. change (blen []) with 0. lia.
 Qed.
 
 (** * Bind::rename: for ALL tails the result is the splice *)
@@ -316,7 +315,7 @@ Proof.
     cbn [andb]. rewrite Hp0, Hm0. reflexivity.
   - unfold splice_name. cbn [take_n skip_strings]. rewrite split0_app by assumption.
     cbn [skip_strings]. rewrite split0_app by assumption. fold len.
-    rewrite app_nil_r. rewrite <- app_assoc. reflexivity.
+    cbn [app]. rewrite <- app_assoc. reflexivity.
   - unfold bind_get_name. cbn [advance5 bind].
     rewrite read_string_term by assumption. cbn [bind].
     rewrite read_string_term by assumption. cbn [bind]. rewrite Hco. reflexivity.
@@ -341,12 +340,30 @@ Proof.
   destruct Hz as [Hz _]. cbn. rewrite Hz. reflexivity.
 Qed.
 
+
+Lemma flat_be32_len tys : blen (flat_map be32 tys) = 4 * Z.of_nat (length tys).
+Proof.
+  induction tys as [|z l IH]; [reflexivity|].
+  cbn [flat_map]. rewrite blen_app. unfold blen at 1. rewrite be32_length. cbn [length]. rewrite Nat2Z.inj_succ. lia.
+Qed.
+
+Lemma flat_be32_bytes tys : forallb in_i32 tys = true -> forallb byteb (flat_map be32 tys) = true.
+Proof.
+  induction tys as [|z l IH]; [reflexivity|]. cbn [flat_map forallb]. intros H.
+  apply andb_prop in H as [Hz Hl]. rewrite forallb_app, IH by assumption.
+  pose proof (i32_of_be32 z Hz) as Hq. destruct (be32 z) as [|a [|b [|c [|d [|? ?]]]]]; try contradiction.
+  destruct Hq as [_ Hq]. rewrite Hq. reflexivity.
+Qed.
+
+Lemma in_i16_of_range z : 0 <= z < 32768 -> in_i16 z = true.
+Proof. intros. unfold in_i16. apply andb_true_intro; split; [apply Z.leb_le | apply Z.ltb_lt]; lia. Qed.
+
 Theorem parse_roundtrip : forall chk p, parse_wf p = true ->
   exists e, encode_parse chk p = Ok e /\ decode_parse e = Ok p /\ parse_canonical e = true.
 Proof.
   intros chk [code len name query np tys] H. unfold parse_wf in H. cbn [p_code p_len p_name p_query p_np p_types] in H.
   rewrite !andb_true_iff, !negb_true_iff in H.
-  destruct H as ((((((((((Hc & Hn0) & Hq0) & Hcn) & Hcq) & Hnp0) & Hnp1) & Htl) & Hti) & Hl) & Hli).
+  destruct H as ((((((((((((Hc & Hbn) & Hbq) & Hn0) & Hq0) & Hcn) & Hcq) & Hnp0) & Hnp1) & Htl) & Hti) & Hl) & Hli).
   apply Z.leb_le in Hnp0. apply Z.ltb_lt in Hnp1. apply Z.eqb_eq in Htl. apply Z.eqb_eq in Hl.
   pose proof (in_i32_bounds _ Hli) as Hlb.
   pose proof (blen_nonneg name). pose proof (blen_nonneg query).
@@ -357,7 +374,7 @@ Proof.
     rewrite ck64_small by (unfold two64; lia). cbn [bind].
     rewrite ck64_small by (unfold two64; lia). cbn [bind]. rewrite <- Hl. reflexivity. }
   eexists. split; [exact Henc|].
-  assert (Hnpi : in_i16 np = true) by (unfold in_i16; apply andb_true_intro; split; [apply Z.leb_le | apply Z.ltb_lt]; lia).
+  assert (Hnpi : in_i16 np = true) by (apply in_i16_of_range; lia).
   split.
   - unfold decode_parse, decode_parse_k. cbn [get_u8 bind].
     rewrite get_i32_be32 by assumption. cbn [bind].
@@ -374,24 +391,271 @@ Proof.
     pose proof (i16_of_be16 np Hnpi) as Hy.
     destruct (be16 np) as [|n1 [|n2 [|? ?]]] eqn:En; try contradiction. destruct Hy as (Hy & Hy1 & Hy2).
     cbn [app]. rewrite Hy, Hz.
-    assert (Hfl : blen (flat_map be32 tys) = 4 * np).
-    { rewrite <- Htl. clear. induction tys as [|z l IH]; [reflexivity|].
-      cbn [flat_map]. rewrite blen_app. unfold blen at 1. rewrite be32_length. cbn [length]. rewrite Nat2Z.inj_succ. lia. }
-    assert (Hfb : forallb byteb (flat_map be32 tys) = true).
-    { clear - Hti. induction tys as [|z l IH]; [reflexivity|]. cbn [flat_map forallb] in *.
-      apply andb_prop in Hti as [Hz Hl]. rewrite forallb_app, IH by assumption.
-      pose proof (i32_of_be32 z Hz) as Hq. destruct (be32 z) as [|a [|b [|c [|d [|? ?]]]]]; try contradiction.
-      destruct Hq as [_ Hq]. rewrite Hq. reflexivity. }
-    rewrite !andb_true_iff. repeat split.
+    pose proof (flat_be32_len tys) as Hfl. rewrite Htl in Hfl.
+    pose proof (flat_be32_bytes tys Hti) as Hfb.
+    cbn [forallb] in Hzb. rewrite !andb_true_iff in Hzb. destruct Hzb as (? & ? & ? & ? & _).
+    rewrite !andb_true_iff. repeat split; try assumption.
     + apply Z.leb_le. lia.
     + apply Z.eqb_eq. exact Hfl.
-    + apply Z.eqb_eq. rewrite !blen_cons, blen_app, !blen_cons, blen_app, !blen_cons, Hfl. lia.
-    + cbn [forallb] in Hzb. cbn [forallb]. rewrite !andb_true_iff in Hzb. destruct Hzb as (? & ? & ? & ? & _).
-      rewrite Hc. repeat (rewrite andb_true_iff; split; [assumption|]).
-      rewrite forallb_app. cbn [forallb]. rewrite forallb_app. cbn [forallb]. rewrite Hy1, Hy2, Hfb.
-      assert (Hcl : forall s, cleanb s = true -> forallb byteb s = true -> forallb byteb s = true) by auto.
-      (* name and query bytes: clean text consists of wire bytes *)
-      admit_bytes.
-    + assumption.
-    + assumption.
-Abort.
+    + apply Z.eqb_eq. repeat (rewrite ?blen_cons, ?blen_app). rewrite Hfl. lia.
+    + cbn [forallb]. rewrite forallb_app. cbn [forallb]. rewrite forallb_app. cbn [forallb].
+      rewrite Hc, Hbn, Hbq, Hy1, Hy2, Hfb. repeat (rewrite andb_true_iff; split; try assumption); reflexivity.
+Qed.
+
+Theorem describe_roundtrip : forall p, desc_wf p = true ->
+  exists e, encode_describe p = Ok e /\ decode_describe e = Ok p /\ describe_canonical e = true.
+Proof.
+  intros [code len t name] H. unfold desc_wf in H. cbn [d_code d_len d_target d_name] in H.
+  rewrite !andb_true_iff, !negb_true_iff in H.
+  destruct H as ((((((Hc & Ht) & Hbn) & Hn0) & Hcn) & Hl) & Hli). apply Z.eqb_eq in Hl.
+  unfold encode_describe. cbn [d_code d_len d_target d_name]. rewrite Hn0. eexists. split; [reflexivity|].
+  rewrite <- Hl.
+  pose proof (i32_of_be32 len Hli) as Hz.
+  destruct (be32 len) as [|a [|b [|c [|d [|? ?]]]]] eqn:Eb; try contradiction. destruct Hz as [Hz Hzb].
+  split.
+  - unfold decode_describe, decode_describe_k. cbn [app get_u8 get_i32 bind]. rewrite Hz.
+    rewrite read_string_term by assumption. cbn [bind]. rewrite (cleanb_eq _ Hcn). reflexivity.
+  - unfold describe_canonical. cbn [app]. rewrite split0_app by assumption. rewrite Hz.
+    cbn [forallb] in Hzb. rewrite !andb_true_iff in Hzb. destruct Hzb as (? & ? & ? & ? & _).
+    rewrite !andb_true_iff. repeat split; try assumption.
+    + apply Z.eqb_eq. rewrite !blen_cons, blen_app, !blen_cons. change (blen []) with 0. lia.
+    + cbn [forallb]. rewrite forallb_app. cbn [forallb]. rewrite Hbn.
+      repeat (rewrite andb_true_iff; split; try assumption); reflexivity.
+Qed.
+
+(** Bind *)
+Lemma take_n_app v r : take_n (length v) (v ++ r) = Some (v, r).
+Proof. induction v as [|c v IH]; cbn; auto. rewrite IH. reflexivity. Qed.
+
+Lemma get_param_enc pv r : param_wf pv = true -> get_param ((be32 (fst pv) ++ snd pv) ++ r) = Ok (pv, r).
+Proof.
+  destruct pv as [pl v]. unfold param_wf. cbn [fst snd]. rewrite !andb_true_iff.
+  intros (((H0 & Hi) & Hl) & Hb). apply Z.leb_le in H0. apply Z.eqb_eq in Hl.
+  unfold get_param. rewrite <- app_assoc, get_i32_be32 by assumption. cbn [bind].
+  destruct (0 <? pl) eqn:E.
+  - replace (blen (v ++ r) <? pl) with false by (symmetry; apply Z.ltb_ge; rewrite blen_app; pose proof (blen_nonneg r); lia).
+    replace (Z.to_nat pl) with (length v) by (unfold blen in Hl; lia). rewrite take_n_app. reflexivity.
+  - apply Z.ltb_ge in E. assert (Hp : pl = 0) by lia. rewrite Hp in *. destruct v; [reflexivity|]. rewrite blen_cons in Hl.
+    pose proof (blen_nonneg v). lia.
+Qed.
+
+Lemma get_n_param_enc l r : forallb param_wf l = true ->
+  get_n get_param (length l) (flat_map (fun pv => be32 (fst pv) ++ snd pv) l ++ r) = Ok (l, r).
+Proof.
+  induction l as [|pv l IH]; cbn [length get_n flat_map forallb]; auto.
+  intros H. apply andb_prop in H as [H1 H2]. rewrite <- app_assoc.
+  rewrite get_param_enc by assumption. cbn [bind]. rewrite IH by assumption. reflexivity.
+Qed.
+
+Lemma add_param_lens_ok chk l acc : forallb param_wf l = true -> 0 <= acc ->
+  acc + fold_right (fun pv a => 4 + fst pv + a) 0 l < two64 ->
+  add_param_lens chk acc l = Ok (acc + fold_right (fun pv a => 4 + fst pv + a) 0 l).
+Proof.
+  revert acc. induction l as [|[pl v] l IH]; intros acc H Ha Hs; cbn [add_param_lens fold_right fst] in *.
+  - f_equal. lia.
+  - apply andb_prop in H as [H1 H2]. unfold param_wf in H1. cbn [fst snd] in H1. rewrite !andb_true_iff in H1.
+    destruct H1 as (((H0 & Hi) & _) & _). apply Z.leb_le in H0. apply in_i32_bounds in Hi.
+    assert (Hf : 0 <= fold_right (fun pv a => 4 + fst pv + a) 0 l).
+    { clear - H2. induction l as [|[pl' v'] l IH]; cbn [fold_right fst forallb] in *; [lia|].
+      apply andb_prop in H2 as [H1 H2]. unfold param_wf in H1. cbn [fst] in H1. rewrite !andb_true_iff in H1.
+      destruct H1 as (((H0 & _) & _) & _). apply Z.leb_le in H0. specialize (IH H2). lia. }
+    rewrite as_usize_nonneg by (unfold two64 in *; lia).
+    rewrite ck64_small by (unfold two64 in *; lia). cbn [bind].
+    rewrite ck64_small by (unfold two64 in *; lia). cbn [bind].
+    rewrite IH; [f_equal; lia | assumption | lia | lia].
+Qed.
+
+Theorem bind_roundtrip : forall chk p, bind_wf p = true ->
+  exists e, encode_bind chk p = Ok e /\ decode_bind e = Ok p.
+Proof.
+  intros chk [code len portal stmt nfc fcs npv pvs nrc rcs] H. unfold bind_wf in H.
+  cbn [b_code b_len b_portal b_stmt b_nfc b_fcs b_npv b_pvs b_nrc b_rcs] in H.
+  rewrite !andb_true_iff, !negb_true_iff in H.
+  destruct H as ((((((((((((((((((((Hc & Hbp) & Hbs) & Hp0) & Hs0) & Hcp) & Hcs) & Hf0) & Hf1) & Hfl) & Hfi)
+                   & Hv0) & Hv1) & Hvl) & Hvi) & Hr0) & Hr1) & Hrl) & Hri) & Hl) & Hli).
+  apply Z.leb_le in Hf0, Hv0, Hr0. apply Z.ltb_lt in Hf1, Hv1, Hr1. apply Z.eqb_eq in Hfl, Hvl, Hrl, Hl.
+  unfold bind_len in Hl. cbn [b_code b_len b_portal b_stmt b_nfc b_fcs b_npv b_pvs b_nrc b_rcs] in Hl.
+  pose proof (in_i32_bounds _ Hli) as Hlb.
+  pose proof (blen_nonneg portal). pose proof (blen_nonneg stmt).
+  set (F := fold_right (fun pv a => 4 + fst pv + a) 0 pvs) in *.
+  assert (HF : 0 <= F).
+  { subst F. clear - Hvi. induction pvs as [|[pl' v'] l IH]; cbn [fold_right fst forallb] in *; [lia|].
+    apply andb_prop in Hvi as [H1 H2]. unfold param_wf in H1. cbn [fst] in H1. rewrite !andb_true_iff in H1.
+    destruct H1 as (((H0 & _) & _) & _). apply Z.leb_le in H0. specialize (IH H2). lia. }
+  assert (Henc : encode_bind chk (mkBind code len portal stmt nfc fcs npv pvs nrc rcs)
+     = Ok (code :: be32 len ++ portal ++ 0%N :: stmt ++ 0%N :: be16 nfc ++ flat_map be16 fcs
+           ++ be16 npv ++ flat_map (fun pv => be32 (fst pv) ++ snd pv) pvs ++ be16 nrc ++ flat_map be16 rcs)).
+  { unfold encode_bind. cbn [b_code b_len b_portal b_stmt b_nfc b_fcs b_npv b_pvs b_nrc b_rcs]. rewrite Hp0, Hs0.
+    rewrite !as_usize_nonneg by (unfold two64; lia).
+    rewrite ck64_small by (unfold two64; lia). cbn [bind].
+    rewrite ck64_small by (unfold two64; lia). cbn [bind].
+    rewrite ck64_small by (unfold two64; lia). cbn [bind].
+    rewrite add_param_lens_ok by (try assumption; fold F; unfold two64; lia). cbn [bind]. fold F.
+    rewrite ck64_small by (unfold two64; lia). cbn [bind].
+    rewrite ck64_small by (unfold two64; lia). cbn [bind].
+    rewrite ck64_small by (unfold two64; lia). cbn [bind].
+    f_equal. f_equal. f_equal. f_equal. lia. }
+  eexists. split; [exact Henc|].
+  unfold decode_bind, decode_bind_k. cbn [get_u8 bind].
+  rewrite get_i32_be32 by assumption. cbn [bind].
+  rewrite read_string_term by assumption. cbn [bind].
+  rewrite read_string_term by assumption. cbn [bind].
+  rewrite get_i16_be16 by (apply in_i16_of_range; lia). cbn [bind].
+  replace (Z.to_nat nfc) with (length fcs) by lia.
+  rewrite get_n_i16_enc by assumption. cbn [bind].
+  rewrite get_i16_be16 by (apply in_i16_of_range; lia). cbn [bind].
+  replace (Z.to_nat npv) with (length pvs) by lia.
+  rewrite get_n_param_enc by assumption. cbn [bind].
+  rewrite get_i16_be16 by (apply in_i16_of_range; lia). cbn [bind].
+  replace (Z.to_nat nrc) with (length rcs) by lia.
+  rewrite <- (app_nil_r (flat_map be16 rcs)). rewrite get_n_i16_enc by assumption. cbn [bind].
+  rewrite (cleanb_eq _ Hcp), (cleanb_eq _ Hcs). reflexivity.
+Qed.
+
+(** * Totality / classification: the four decoders and the two name readers never return
+    [Err]; they answer [Ok] or [Panic] on every byte string. *)
+Definition noerr {A} (r : res A) : Prop := r <> Err.
+
+Lemma noerr_bind {A B} (r : res A) (f : A -> res B) : noerr r -> (forall a, noerr (f a)) -> noerr (bind r f).
+Proof. unfold noerr. intros H1 H2. destruct r; cbn [bind]; [apply H2 | exfalso; apply H1; reflexivity | discriminate]. Qed.
+
+Lemma noerr_get_u8 s : noerr (get_u8 s).            Proof. destruct s; discriminate. Qed.
+Lemma noerr_get_i16 s : noerr (get_i16 s).          Proof. destruct s as [|? [|? ?]]; discriminate. Qed.
+Lemma noerr_get_i32 s : noerr (get_i32 s).          Proof. destruct s as [|? [|? [|? [|? ?]]]]; discriminate. Qed.
+Lemma noerr_read_string s : noerr (read_string s).
+Proof. unfold read_string. destruct (split0 s) as [[? ?]|]; [discriminate|]. destruct s; discriminate. Qed.
+Lemma noerr_advance5 s : noerr (advance5 s).
+Proof. destruct s as [|? [|? [|? [|? [|? ?]]]]]; discriminate. Qed.
+Lemma noerr_get_n {A} (g : bytes -> res (A * bytes)) n : (forall s, noerr (g s)) -> forall s, noerr (get_n g n s).
+Proof.
+  intros Hg. induction n as [|n IH]; intros s; cbn [get_n]; [discriminate|].
+  apply noerr_bind; [apply Hg|]. intros [a r]. apply noerr_bind; [apply IH|]. intros [l r']. discriminate.
+Qed.
+Lemma noerr_get_param s : noerr (get_param s).
+Proof.
+  unfold get_param. apply noerr_bind; [apply noerr_get_i32|]. intros [pl r].
+  destruct (0 <? pl); [|discriminate]. destruct (blen r <? pl); [discriminate|].
+  destruct (take_n (Z.to_nat pl) r) as [[? ?]|]; discriminate.
+Qed.
+
+Ltac noerr_steps :=
+  repeat first [ apply noerr_bind; [first [apply noerr_get_u8 | apply noerr_get_i16 | apply noerr_get_i32 | apply noerr_read_string
+                                          | apply noerr_advance5
+                                          | apply noerr_get_n; intros; first [apply noerr_get_i32 | apply noerr_get_i16 | apply noerr_get_param]]
+                                   | intros [? ?] ]
+               | discriminate ].
+
+Lemma decode_parse_noerr b : noerr (decode_parse b).
+Proof. unfold decode_parse, decode_parse_k. apply noerr_bind; [|intros [? ?]; discriminate]. noerr_steps. Qed.
+Lemma decode_bind_noerr b : noerr (decode_bind b).
+Proof. unfold decode_bind, decode_bind_k. apply noerr_bind; [|intros [? ?]; discriminate]. noerr_steps. Qed.
+Lemma decode_describe_noerr b : noerr (decode_describe b).
+Proof. unfold decode_describe, decode_describe_k. apply noerr_bind; [|intros [? ?]; discriminate]. noerr_steps. Qed.
+Lemma parse_get_name_noerr b : noerr (parse_get_name b).
+Proof. unfold parse_get_name. apply noerr_bind; [apply noerr_advance5|]. intros s. noerr_steps. Qed.
+Lemma bind_get_name_noerr b : noerr (bind_get_name b).
+Proof. unfold bind_get_name. apply noerr_bind; [apply noerr_advance5|]. intros s. noerr_steps. Qed.
+
+Theorem decoders_total : forall b,
+  (exists p, decode_parse b = Ok p) \/ decode_parse b = Panic.
+Proof. intros b. pose proof (decode_parse_noerr b) as H. unfold noerr in H. destruct (decode_parse b); eauto. contradiction. Qed.
+
+Theorem decoders_classified : forall b,
+  ((exists p, decode_parse b = Ok p) \/ decode_parse b = Panic) /\
+  ((exists p, decode_bind b = Ok p) \/ decode_bind b = Panic) /\
+  ((exists p, decode_describe b = Ok p) \/ decode_describe b = Panic) /\
+  ((exists p, decode_close b = Ok p) \/ decode_close b = Panic) /\
+  ((exists n, parse_get_name b = Ok n) \/ parse_get_name b = Panic) /\
+  ((exists n, bind_get_name b = Ok n) \/ bind_get_name b = Panic).
+Proof.
+  intros b.
+  pose proof (decode_parse_noerr b) as H1. pose proof (decode_bind_noerr b) as H2.
+  pose proof (decode_describe_noerr b) as H3. pose proof (parse_get_name_noerr b) as H4.
+  pose proof (bind_get_name_noerr b) as H5. unfold noerr, decode_close in *.
+  repeat split.
+  - destruct (decode_parse b); eauto; contradiction.
+  - destruct (decode_bind b); eauto; contradiction.
+  - destruct (decode_describe b); eauto; contradiction.
+  - destruct (decode_describe b); eauto; contradiction.
+  - destruct (parse_get_name b); eauto; contradiction.
+  - destruct (bind_get_name b); eauto; contradiction.
+Qed.
+
+(* a decoder can only panic by running off the end: a frame shorter than its fixed part *)
+Lemma decode_describe_ok_iff b : (exists p, decode_describe b = Ok p) <-> (7 <= length b)%nat.
+Proof.
+  unfold decode_describe, decode_describe_k. split.
+  - intros [p H]. destruct b as [|c [|l1 [|l2 [|l3 [|l4 [|t [|x s]]]]]]]; cbn in H; try discriminate. cbn. lia.
+  - intros H. destruct b as [|c [|l1 [|l2 [|l3 [|l4 [|t [|x s]]]]]]]; cbn in H; try lia.
+    cbn [get_u8 get_i32 bind]. pose proof (noerr_read_string (x :: s)) as Hn. unfold noerr in Hn.
+    destruct (read_string (x :: s)) as [[n r]| |] eqn:E; cbn [bind]; eauto; try contradiction.
+    exfalso. unfold read_string in E. destruct (split0 (x :: s)) as [[? ?]|]; discriminate.
+Qed.
+
+(** * The hash key *)
+
+Lemma hkey_inj (a b : parse) : hkey a = hkey b -> p_query a = p_query b /\ p_np a = p_np b /\ p_types a = p_types b.
+Proof. unfold hkey. intros H. inversion H. auto. Qed.
+
+Lemma le_go_inj k : forall u1 u2, 0 <= u1 < 256 ^ Z.of_nat k -> 0 <= u2 < 256 ^ Z.of_nat k ->
+  le_go k u1 = le_go k u2 -> u1 = u2.
+Proof.
+  induction k as [|k IH]; intros u1 u2 H1 H2 H.
+  - change (256 ^ Z.of_nat 0) with 1 in *. lia.
+  - cbn [le_go] in H. inversion H as [[Hh Ht]].
+    rewrite Nat2Z.inj_succ, Z.pow_succ_r in H1, H2 by lia.
+    assert (u1 / 256 = u2 / 256) by (apply IH; try assumption; lia).
+    assert (u1 mod 256 = u2 mod 256) by (apply Z2N.inj in Hh; lia).
+    lia.
+Qed.
+
+Lemma le_go_length k u : length (le_go k u) = k.
+Proof. revert u. induction k; intros; cbn; auto. Qed.
+
+Lemma app_inj_len {A} (a1 a2 b1 b2 : list A) : length a1 = length a2 -> a1 ++ b1 = a2 ++ b2 -> a1 = a2 /\ b1 = b2.
+Proof.
+  revert a2. induction a1 as [|x a1 IH]; intros [|y a2] Hl H; cbn in *; try discriminate; auto.
+  inversion H; subst. destruct (IH a2) as [-> ->]; auto.
+Qed.
+
+Lemma split_at_ff q1 q2 r1 r2 : ~ In 255%N q1 -> ~ In 255%N q2 ->
+  q1 ++ 255%N :: r1 = q2 ++ 255%N :: r2 -> q1 = q2 /\ r1 = r2.
+Proof.
+  revert q2. induction q1 as [|x q1 IH]; intros [|y q2] H1 H2 H; cbn in *.
+  - inversion H. auto.
+  - inversion H; subst. exfalso. apply H2. auto.
+  - inversion H; subst. exfalso. apply H1. auto.
+  - inversion H; subst. destruct (IH q2) as [-> ->]; auto.
+Qed.
+
+Lemma flat_le4_inj t1 t2 : forallb in_i32 t1 = true -> forallb in_i32 t2 = true -> length t1 = length t2 ->
+  flat_map (le_bytes 4) t1 = flat_map (le_bytes 4) t2 -> t1 = t2.
+Proof.
+  revert t2. induction t1 as [|x t1 IH]; intros [|y t2] H1 H2 Hl H; cbn [length] in *; try discriminate; auto.
+  cbn [flat_map forallb] in *. apply andb_prop in H1 as [Hx H1]. apply andb_prop in H2 as [Hy H2].
+  apply app_inj_len in H as [Ha Hb]; [|unfold le_bytes; rewrite !le_go_length; reflexivity].
+  f_equal; [|apply IH; auto].
+  unfold le_bytes in Ha. apply le_go_inj in Ha; try (change (256 ^ Z.of_nat 4) with 4294967296; change (2 ^ (8 * Z.of_nat 4)) with 4294967296; lia).
+  change (2 ^ (8 * Z.of_nat 4)) with 4294967296 in Ha. apply in_i32_bounds in Hx, Hy. lia.
+Qed.
+
+Theorem hstream_injective : forall q1 n1 t1 q2 n2 t2,
+  ~ In 255%N q1 -> ~ In 255%N q2 -> in_i16 n1 = true -> in_i16 n2 = true ->
+  forallb in_i32 t1 = true -> forallb in_i32 t2 = true ->
+  Z.of_nat (length t1) < two64 -> Z.of_nat (length t2) < two64 ->
+  hstream (q1, n1, t1) = hstream (q2, n2, t2) -> (q1, n1, t1) = (q2, n2, t2).
+Proof.
+  intros q1 n1 t1 q2 n2 t2 Hq1 Hq2 Hn1 Hn2 Ht1 Ht2 Hl1 Hl2 H. unfold hstream in H. cbn [app] in H.
+  apply split_at_ff in H as [-> H]; try assumption.
+  apply app_inj_len in H as [Ha H]; [|unfold le_bytes; rewrite !le_go_length; reflexivity].
+  apply app_inj_len in H as [Hb H]; [|unfold le_bytes; rewrite !le_go_length; reflexivity].
+  unfold le_bytes in Ha, Hb.
+  apply le_go_inj in Ha; try (change (256 ^ Z.of_nat 2) with 65536; change (2 ^ (8 * Z.of_nat 2)) with 65536; lia).
+  apply le_go_inj in Hb; try (change (256 ^ Z.of_nat 8) with two64; change (2 ^ (8 * Z.of_nat 8)) with two64; unfold two64; lia).
+  change (2 ^ (8 * Z.of_nat 2)) with 65536 in Ha. change (2 ^ (8 * Z.of_nat 8)) with two64 in Hb.
+  unfold in_i16 in Hn1, Hn2. apply andb_prop in Hn1 as [A1 A2]. apply andb_prop in Hn2 as [B1 B2].
+  apply Z.leb_le in A1, B1. apply Z.ltb_lt in A2, B2.
+  assert (n1 = n2) by lia. subst.
+  assert (length t1 = length t2) by (unfold two64 in *; lia).
+  f_equal. apply flat_le4_inj; assumption.
+Qed.
